@@ -39,12 +39,52 @@ def run(F, X, rep):
     c18_l1(F, X, rep, bodies)
     c18_l2(F, X, rep, bodies)
     c18_u(F, X, rep, bodies)
+    c18_e(F, X, rep, bodies)
     import rules_lc as R
     import rules_hh as H
     H.g1_lookup_by_type(R.Ctx.get(F, X), rep, "C18-G")
 
 
 # ---------------------------------------------------------------------------- P
+def c18_e(F, X, rep, bodies, rid="C18-E"):
+    rep.rule(rid, "the decoders reject only truncated / over-long input: every error a function of src/tlv.rs originates is raised under a comparison on the number of remaining bytes, or passes on the error of an inner decoder - never under a test on decoded content (a well-formed stream would not be decoded)")
+    n = 0
+    for b in bodies:
+        for bi in sorted(b.reachable):
+            for s in b.blocks[bi]["s"]:
+                if not (s["k"] == "assign" and s["rv"]["k"] == "agg" and s["rv"].get("variant") == "Err" and canon(s["rv"].get("adt") or "").endswith("Result")):
+                    continue
+                if s.get("inl"):
+                    continue                # rebuilt by an expanded combinator: the original error is judged where it is made
+                n += 1
+                conds = lib.dominating_conditions(b, bi)
+                best = None
+                for c, t in conds:
+                    d = len(b.dom.get(c.bb, ()))
+                    if best is None or d > best[0]:
+                        best = (d, c, t)
+                ok, how = False, "no condition"
+                if best is not None:
+                    c, t = best[1], best[2]
+                    if c.kind == "cmp":
+                        es = [strip(X.operand(b, c.a)), strip(X.operand(b, c.b))]
+                        if any(y[0] == "call" and y[1].split("::")[-1] in ("remaining", "len") for e in es for y in walk(e)):
+                            ok, how = True, "remaining() %s .." % c.op
+                        else:
+                            how = "%s %s %s" % (show(es[0])[:40], c.op, show(es[1])[:30])
+                    elif c.kind == "enum" and isinstance(t, tuple) and set(t) <= {"Err", "None", "Break"}:
+                        ok, how = True, "error of an inner decoder passed on"
+                    elif c.kind == "call" and c.call.mname in ("has_remaining", "is_empty"):
+                        ok, how = True, c.call.mname
+                    elif c.kind == "int" and c.place is not None and any(y[0] == "call" and y[1].split("::")[-1] in ("remaining", "len") for y in walk(strip(X.place(b, c.place)))):
+                        ok, how = True, "match on remaining()"
+                    else:
+                        how = "%s %s" % (c.kind, t)
+                rep.ob(rid, ok, F.root_of(b), "error raised only for truncated input", where=loc(s["sp"]), how=how,
+                       detail="" if ok else "%s rejects its input under `%s`: a test on decoded content, not on the bytes that are left - some well-formed encodings are refused" % (F.root_of(b).split("::")[-1], how))
+    rep.anchor(rid, "error-originating sites in src/tlv.rs", n, 4)
+
+
 def c18_p(F, X, rep, bodies):
     rep.rule("C18-P", "totality: every panic-capable site in src/tlv.rs is discharged")
     sites = panics.enumerate_sites(F, bodies)
